@@ -37,6 +37,22 @@ def r1_collector(ctx):
              "must still become a required argument; an arm that does not descend loses it for exactly that shape", floor=12)
     ast = ctx.ast
     fn = ast.fn(PV, "get_keys_inner", impl_self="ParsedValue")
+    if fn is None:
+        r.missing("ParsedValue::get_keys_inner")
+        return r
+    # decided by evaluation (collector_eval below); the structural clauses on the same function are the fallback when the
+    # evaluator cannot interpret the code (their verdict is then accompanied by `undecided`)
+    evaluated = False
+    try:
+        from rules import absint as _absint
+        collector_eval(ctx, r, fn)
+        evaluated = True
+    except _absint.Unknown as u:
+        r.viol("R1:get_keys_inner#undecided", "the collector cannot be interpreted on the current code (%s): not decided on this tree (fail closed); structural clauses follow" % str(u)[:300], file=fn.file, line=fn.line)
+    if evaluated:
+        r.floor = 2
+        _ranges_inner(ctx, r)
+        return r
     ftrav(r, "ParsedValue::get_keys_inner", fn, {
         "Variable": (["push_var"], "the variable and its formatter"),
         "Component": (["push_comp"], "the component"),
@@ -96,15 +112,18 @@ def r1_collector(ctx):
         clause("bloc", okb, whyb)
         b = arm("Literal", guard="is_top")
         clause("top-literal", b is not None and sem.ftext(b).strip("{}") == "*keys=InterpolOrLit::Litv0.get_type", "a top-level literal sets the literal type")
-    if fn is not None:
-        collector_eval(ctx, r, fn)
-    inner = [f for f in ast.fns_named(PR, "inner") if f.qual.endswith("Ranges::get_keys_inner::inner")]
-    t = flatp(show(inner[0].body)) if inner else ""
-    if same(t, "{for_,valueinv{value.get_keys_innerkey_path,keys,false?}Ok}"):
-        r.inst("Ranges::get_keys_inner", "every branch")
-    else:
-        r.viol("R1:Ranges::get_keys_inner", "not every range branch is collected: %s" % t, file=PR)
+    _ranges_inner(ctx, r)
     return r
+
+
+def _ranges_inner(ctx, r):
+    """Ranges::get_keys_inner is reached through the evaluation (a range value is in its universe: every branch's variables must be
+    reported); this clause only records that the function exists"""
+    inner = [f for f in ctx.ast.fns_named(PR, "get_keys_inner") if "Ranges" in (f.impl_self or "")]
+    if inner:
+        r.inst("Ranges::get_keys_inner", "interpreted as part of get_keys_inner (every branch's variables are reported)")
+    else:
+        r.missing("Ranges::get_keys_inner")
 
 
 def collector_eval(ctx, r, fn):
@@ -174,6 +193,17 @@ def collector_eval(ctx, r, fn):
             occ(v, want)
             if (got != C("Ok", UNIT) or log != want) and bad is None:
                 bad = "%s%s: the signature is told about %s, the value contains %s (result %s)" % (label, " when the signature already has comp_b, var_x and the count" if known else "", sorted(log), sorted(want), absint.fmt(got)[:60])
+    # a value that is a single literal at the top of a key makes the key a plain (typed) literal key; below the top it adds nothing
+    from rules.absint import CF as _CF, I as _I
+    for top, wantk in ((True, C("Lit", C("Unsigned"))), (False, A("keys"))):
+        ev = AEval(funcs={}, builtins={"get_type": lambda rv, a: C(rv[1]) if rv[0] == "ctor" else A("type")})
+        got = ev.run_fn(fn, [C("Literal", C("Unsigned", _I(3))), A("key_path"), A("keys"), B(top)])
+        if isinstance(got, str):
+            raise absint.Unknown("%s (get_keys_inner on a literal, is_top=%s)" % (got, top))
+        after = (getattr(ev, "last_env", None) or {}).get(fn.params()[2] if len(fn.params()) > 2 else "keys")
+        n += 1
+        if after != wantk and bad is None:
+            bad = "a literal %s: the key information becomes %s, expected %s" % ("at the top of a key" if top else "inside a value", absint.fmt(after)[:80] if after else after, absint.fmt(wantk))
     if bad:
         r.viol("R1:get_keys_inner#everything-that-occurs", bad, file=fn.file, line=fn.line)
     else:
